@@ -30,7 +30,11 @@ class Engine(_Base, ExprMixin, CallMixin, StmtMixin):
             if s.exc is not None:
                 out.append((s, None))
                 continue
-            out.append((s, VBool(self.quant_over(s, it, comp, g.elt, is_all, e))))
+            for s1, it1 in self.force(s, it, e):
+                if s1.exc is not None:
+                    out.append((s1, None))
+                else:
+                    out.append((s1, VBool(self.quant_over(s1, it1, comp, g.elt, is_all, e))))
         return out
 
     def quant_over(self, st, it, comp, elt, is_all, node):
